@@ -156,14 +156,26 @@ def _run_spec(sh, params):
     for i in range(sl, n, ns):
         r = core.rng(sh.seed, "C19", "spec", i)
         f, cols, cls = _make_spec(r)
+        intspec = r.random() < 0.12
+        if intspec:
+            # a specification typed in with whole numbers and kept in an integer array /
+            # int lists (np.array([[20, 1], [100, 1], [150, 10], [1000, 10]]))
+            nb = len(f)
+            fi = np.cumsum(r.integers(1, 60, nb)) + int(r.integers(1, 30))
+            f = [float(x) for x in fi]
+            cols = [[float(x) for x in r.integers(1, 25, nb)] for _ in cols]
+            cls = [["generic"] * (nb - 1) for _ in cols]
         ncol = len(cols)
         form = ["array", "tuple1d", "tuple2d", "list2d"][int(r.integers(4))]
         if form == "tuple1d":
             cols, cls, ncol = cols[:1], cls[:1], 1
-        with_nan = r.random() < 0.06 and len(f) >= 3
+        with_nan = r.random() < 0.06 and len(f) >= 3 and not intspec
         F = np.array(f)
         Pm = np.array(cols).T                       # (nfreq, ncol)
         Fin, Pin = F, Pm
+        if intspec:
+            Fin, Pin = F.astype(np.int64), Pm.astype(np.int64)
+            sh.count("cell:spec-integer-dtype")
         if with_nan:                                # documented: NaN frequencies are deleted
             k = int(r.integers(1, len(f)))
             Fin = np.insert(F, k, np.nan)
